@@ -80,15 +80,13 @@ class CodemodRegistry:
         if codemod_exclude and not codemod_include:
             base_codemods = {}
             patterns = [
-                re.compile(exclude.replace("*", ".*"))
-                for exclude in codemod_exclude
-                if "*" in exclude
+                _compile_pattern(exclude) for exclude in codemod_exclude if "*" in exclude
             ]
             names = set(name for name in codemod_exclude if "*" not in name)
 
             for codemod in self.codemods:
                 if codemod.id in names or any(
-                    pat.match(codemod.id) for pat in patterns
+                    pat.fullmatch(codemod.id) for pat in patterns
                 ):
                     continue
 
@@ -101,9 +99,13 @@ class CodemodRegistry:
         matched_codemods = []
         for name in codemod_include:
             if "*" in name:
-                pat = re.compile(name.replace("*", ".*"))
-                pattern_matches = [code for code in self.codemods if pat.match(code.id)]
-                matched_codemods.extend(pattern_matches)
+                pat = _compile_pattern(name)
+                pattern_matches = [
+                    code for code in self.codemods if pat.fullmatch(code.id)
+                ]
+                matched_codemods.extend(
+                    code for code in pattern_matches if code not in matched_codemods
+                )
                 if not pattern_matches:
                     logger.warning(
                         "Given codemod pattern '%s' does not match any codemods.", name
@@ -111,7 +113,8 @@ class CodemodRegistry:
                 continue
 
             try:
-                matched_codemods.append(self._codemods_by_id[name])
+                if (codemod := self._codemods_by_id[name]) not in matched_codemods:
+                    matched_codemods.append(codemod)
             except KeyError:
                 logger.warning(f"Requested codemod to include '{name}' does not exist.")
         return matched_codemods
@@ -123,6 +126,11 @@ class CodemodRegistry:
     ) -> list[dict]:
         codemods = self.match_codemods(codemod_include, codemod_exclude)
         return [codemod.describe() for codemod in codemods]
+
+
+def _compile_pattern(pattern: str) -> re.Pattern:
+    """Compile a codemod id pattern where `*` matches any run of characters"""
+    return re.compile(".*".join(re.escape(part) for part in pattern.split("*")))
 
 
 def load_registered_codemods(ep_filter: Optional[Callable[[EntryPoint], bool]] = None):
